@@ -47,7 +47,10 @@ def run(run):
         layout, _ = extract(run, ["range_bits", w])
         x = smt.vname(xe.wname(layout.inputs["x"]))
         if w <= 254:
+            bounds, lem = xe.propagate_bounds(rowsem, layout)
+            run.bound_lemmas(f"range/w{w}", lem)
             q = xe.Query()
+            xe.apply_bounds(q, bounds)
             xe.encode_layout(q, rowsem, layout)
             q.var(xe.wname(layout.inputs["x"]))
             q.add(f"(>= {x} {1 << w})")
